@@ -83,12 +83,39 @@ def gen_hist_spec(rng):
         a, b = sorted(setup)[:2]
         sp["nodes"][b]["fn"] = sp["nodes"][a]["fn"]
         del sp["fns"]["f%d" % b]
+    # a side-effect-only setup function legitimately returns None (its leaves only: nobody indexes it)
+    g2 = S.site_graph(sp)
+    for i in sorted(setup):
+        fn = sp["nodes"][i]["fn"]
+        if rng.random() < 0.25 and sum(1 for m in sp["nodes"] if m["fn"] == fn) == 1:
+            sp["fns"][fn]["shape"] = ["none"]
     sp["is_async"] = rng.random() < 0.4
     return sp, setup
 
 
+class _Filtered:
+    """Collector proxy: a check for another property re-uses a workload and reports only its own clauses."""
+
+    def __init__(self, real, only):
+        object.__setattr__(self, "_real", real)
+        object.__setattr__(self, "_only", only)
+
+    def __getattr__(self, k):
+        return getattr(self._real, k)
+
+    def __setattr__(self, k, v):
+        setattr(self._real, k, v)
+
+    def violation(self, p, mech, w, r):
+        if self._only is None or mech in self._only:
+            self._real.violation(p, mech, w, r)
+        else:
+            self._real.counters["other_clause:" + mech] += 1
+
+
 def c11_history(col, rng, hidx, jobref=None):
-    pid = "C11"
+    pid = (jobref or {}).get("pid", "C11")
+    col = _Filtered(col, (jobref or {}).get("only"))
     sp, setup = gen_hist_spec(rng)
     plain = S.make_fns(sp)
     ids = S.node_ids(sp)
@@ -117,7 +144,7 @@ def c11_history(col, rng, hidx, jobref=None):
             sel = set(range(n))
             thunk = lambda: op_call(d, args)  # noqa: E731
         elif op == "exec":
-            ts = rng.sample(range(n), rng.randint(1, min(3, n)))
+            ts = rng.sample(range(n), rng.randint(0 if rng.random() < 0.1 else 1, min(3, n)))
             kw = {"target_nodes": [ids[i] for i in ts]}
             sel = S.closure(sp, None, None, ts)
             thunk = lambda: op_exec(d, kw, args)  # noqa: E731
@@ -125,7 +152,8 @@ def c11_history(col, rng, hidx, jobref=None):
             sel = set(setup)
             thunk = lambda: op_setup(d, {})  # noqa: E731
         else:
-            ts = rng.sample(range(n), rng.randint(1, 2))
+            # an empty target list is a legal empty selection (nothing to set up), different from "not given"
+            ts = rng.sample(range(n), rng.randint(0, 2))
             kw = {"target_nodes": [ids[i] for i in ts]}
             sel = S.closure(sp, None, None, ts) & set(setup)
             thunk = lambda: op_setup(d, kw)  # noqa: E731
@@ -223,8 +251,13 @@ def gen_leak_spec(rng):
     sp["params"] = ["x", "y"]
     sp["defaults"] = {"y": ("D", 1)}
     for nd in sp["nodes"]:
-        if rng.random() < 0.3:
+        r = rng.random()
+        if r < 0.2:
             nd["args"].append(["p", "y"])
+        elif r < 0.35:
+            nd["kwargs"]["ky"] = ["p", "y"]
+        elif r < 0.45:
+            nd["kwargs"]["kx"] = ["p", "x"]
     if not any(a == ["p", "x"] for nd in sp["nodes"] for a in nd["args"]):
         sp["nodes"][0]["args"].append(["p", "x"])
     sp["is_async"] = rng.random() < 0.3
@@ -359,15 +392,20 @@ def c15_history(col, rng, hidx, jobref=None):
             hist.append(("executor_created_not_run",))
         elif op == "compose":
             outs = [ids[i] for i in rng.sample(range(n), rng.randint(1, 2))]
+            ins = ... if rng.random() < 0.4 else [ids[i] for i in rng.sample(range(n), rng.randint(0, 2)) if ids[i] not in outs] + ["prog>!>x", "prog>!>y"]
             try:
                 with warnings.catch_warnings():
                     warnings.simplefilter("ignore")
-                    c = d.compose("cmp%d" % nonce[0], ..., outs)
-                args = fresh_args()
+                    c = d.compose("cmp%d" % nonce[0], ins, outs)
+                args = fresh_args() if ins is ... else [Sym("in", hidx, nonce[0], q) for q in range(len(ins))]
                 r = probes.run_op("composed", lambda: op_call(c, args))
-                hist.append(("compose+run", outs, r[0]))
+                hist.append(("compose+run", "..." if ins is ... else ins, outs, r[0]))
             except ValueError as e:
-                hist.append(("compose", outs, "ValueError %s" % str(e)[:40]))
+                hist.append(("compose", "..." if ins is ... else ins, outs, "ValueError %s" % str(e)[:40]))
+            except BaseException as e:  # noqa: BLE001
+                if isinstance(e, (KeyboardInterrupt, SystemExit)):
+                    raise
+                hist.append(("compose", "..." if ins is ... else ins, outs, "raised %s" % type(e).__name__))
         elif op == "config":
             i = rng.randrange(n)
             conf = {"nodes": {ids[i]: {"priority": rng.randint(-3, 9)}}, "max_concurrency": rng.randint(1, 4)}
@@ -451,7 +489,9 @@ def c18_case(col, rng, cidx, tmpdir, jobref=None):
         kw1["target_nodes"] = [ids[i] for i in ts]
         sel1 = S.closure(sp, None, None, ts)
     elif mode == "cache_deps_of":
-        nn = [rng.randrange(n)]
+        nn = rng.sample(range(n), rng.randint(1, min(3, n)))
+        # none of them may be an ancestor of another one (its result would have to be both cached and not cached)
+        nn = [i for i in nn if not any(i in nx.ancestors(g, q) for q in nn if q != i)]
         kw1["cache_deps_of"] = [ids[i] for i in nn]
         sel1 = S.closure(sp, None, None, nn)
     else:
@@ -476,6 +516,8 @@ def c18_case(col, rng, cidx, tmpdir, jobref=None):
         for i in nn:
             anc |= nx.ancestors(g, i)
         col.counters["c18_cache_deps_of_files"] += 1
+        if len(nn) > 1:
+            col.counters["c18_cache_deps_of_several_nodes"] += 1
         if not anc <= cached_sites or any(i in cached_sites for i in nn):
             col.violation(pid, "cache_deps_of_file_content_wrong", dict(
                 n=[ids[i] for i in nn], file_has=sorted(ids[i] for i in cached_sites), ancestors=sorted(ids[i] for i in anc), source=S.render(sp)), rp)
